@@ -39,6 +39,10 @@ CHECKS = {
    "same histories; oracle: an IA_PD asking for exactly a held prefix gets it, a hint-less IA_PD (no IAPrefix or ::/0) gets every held prefix back, lifetimes do not shrink below what remained (one-sided bracket), and at the end fresh clients drain the pool: exactly N - |delegated blocks| must be free (retransmissions consumed nothing, nothing delegated was forgotten).",
    "'for as long as the server runs' = the length of the history (no expiry in the code); length-only hints are outside the statement.",
    "online reference-model monitor with conservation audit + porcupine linearizability check", "4 C08-C09"),
+ "C10": ("file", "exploration",
+   "288 (quick) / 2880 (thorough) cases, each in a fresh server process: generated lease files vs an independent reference parser (accept iff well-formed; every listed MAC served its last listed address, unlisted clients and requests without IA_NA byte-identical to the chain without the plugin), autorefresh sequences of good/bad equal-length single-pwrite rewrites of self-identifying versions (old-or-new, monotone, all-or-nothing, bounded progress 400 polls / 20 s with one re-arm, malformed leaves the old mapping), and dual-stack processes whose DHCPv4 and DHCPv6 instances refresh independently.",
+   "'eventually' restated as bounded progress; rename-replacement and unclassified line shapes are not driven; stdlib net.ParseMAC/ParseIP define 'every spelling'.",
+   "reference-parser monitor + differential (with/without plugin) oracle + version-trace monitor under autorefresh", "4 C10"),
  "C14": ("sid", "exploration",
    "32 (quick) / 200 (thorough) accepted server_id spellings, each hosted in a fresh server process; DHCPv6: all 256 message types x 9 kinds of Server Identifier x relay depth 0-2 decided by the RFC 8415 section 16 table; DHCPv4: siaddr x option 54 x DISCOVER/REQUEST matrix; every answered message must carry exactly this server's identifier.",
    "0.0.0.0 in option 54 is no-crash-only; types the server never answers are expected to stay unanswered.",
